@@ -12,10 +12,11 @@ ID = "C11"
 LEVEL = "exploration"
 TECHNIQUE = "offline exactly-once / routing / ordering checker over a unique-id event trace; receive_event contract"
 RULE = ("send scripts (sender, receiver incl. deleted and never-issued ids, step, delay in {none,0,dt,2dt,0.3,0.7,1.5,...}) over "
-        "populations of 2-8 agents of 2 types with create/delete/configure/reset histories at end_round, dt in {1,.5,.25,.2,.1}; "
+        "populations of 2-8 agents of 2 types with create/delete/configure/reset histories at end_round and deletions from inside act() (the deleted agent itself is not judged in that step), dt in {1,.5,.25,.2,.1}; "
         "exhaustive: all pairs (quick) / triples (thorough) of events over <=3 agents x {no deletion, delete receiver, delete other}. "
         "distinct_nontrivial = distinct scripts in which at least one event is delayed or addressed to a changed population.")
-ASSUMPTIONS = ["population changes are scripted in end_round only, so the population is stable between routing and handling",
+ASSUMPTIONS = ["population changes are scripted in end_round, plus deletions from inside act(): every agent that is alive throughout its delivery step is judged",
+               "an event is addressed to the agent object that carried the id when the event was sent (identity tokens of the harness agents): an id handed to another object later is not the addressee",
                "handlers are registered for every state (an agent without handlers for its state keeps its events queued: not judged)",
                "an event whose delivery step lies after the end of the run is 'open', not lost"]
 REQUIRED = {"events_sent": 2000, "events_handled": 1500, "contract_evaluations": 1500, "delayed_events": 500}
@@ -115,6 +116,10 @@ def make_random(seed):
                 script["end"].setdefault(str(k), []).append(["configure", [{"name": "a", "count": 2}, {"name": "b", "count": 1}]])
             else:
                 script["end"].setdefault(str(k), []).append(["reset_agents"])
+        if rng.random() < 0.15 and live_guess:
+            # a deletion from inside act(): an agent removes itself or an earlier / later agent while the step is running
+            actor = rng.choice(live_guess)
+            script.setdefault("act", {}).setdefault(str(k), {}).setdefault(str(actor), []).append(["delete", rng.choice([actor, actor, max(0, actor - 1), actor + 1])])
         if rng.random() < 0.3:
             script["state"].setdefault(str(k), {})[str(rng.randrange(0, next_id + 3))] = rng.choice(["active", "idle", "busy"])
         for _ in range(rng.randint(0, 4)):
@@ -148,6 +153,7 @@ def check_trace(sc, log, event_stats):
     stats = dict(sent=0, handled=0, delayed=0)
     # reconstruct per-step populations, handled events and times
     pop, handled, times = {}, [], {}
+    token_of, handled_token, deleted_in_act = {}, {}, {}
     k = -1
     for e in log:
         if e[0] == "begin":
@@ -155,8 +161,13 @@ def check_trace(sc, log, event_stats):
             times[k] = e[1]
         elif e[0] == "agents":
             pop[k] = list(e[1])
+            token_of[k] = dict(zip(e[1], e[2])) if len(e) > 2 else {}
         elif e[0] == "handled":
             handled.append((k, e[1], e[2], e[4]))   # step, agent, uid, receiver_id
+            if len(e) > 5:
+                handled_token[(k, e[2])] = e[5]
+        elif e[0] == "op" and e[1] == "act" and e[2][0] == "delete":
+            deleted_in_act.setdefault(k, set()).add(e[2][1])
     last = k
     sent = [e for e in log if e[0] == "sent"]
     by_uid = {}
@@ -178,6 +189,22 @@ def check_trace(sc, log, event_stats):
         if not alive:
             if got:
                 return dict(kind="dead-id-handled", uid=uid, receiver=rcv, handled=got, population=pop.get(D)), stats
+            continue
+        # identity: the event was addressed to the agent that carried this id when it was sent; an id that has been handed to
+        # another agent object in the meantime (ids recycled by a reconfiguration) is not the addressee
+        sent_tok, now_tok = token_of.get(ks, {}).get(rcv), token_of.get(D, {}).get(rcv)
+        if sent_tok is not None and now_tok is not None and sent_tok != now_tok:
+            if got:
+                return dict(kind="delivered-to-recycled-id", uid=uid, receiver=rcv, sent_step=ks, expected_step=D, handled=got,
+                            addressee_token=sent_tok, handler_token=now_tok), stats
+            continue
+        if rcv in deleted_in_act.get(D, set()):
+            # deleted from inside act() during its delivery step: whether it still had its turn is not specified
+            if len(got) > 1 or any(a != rcv or _k != D for (_k, a) in got):
+                return dict(kind="not-exactly-once", uid=uid, receiver=rcv, sent_step=ks, delay=delay, expected_step=D, handled=got), stats
+            if got:
+                exp_stats.setdefault(D, {}).setdefault("ping" if delay is None else "pong", 0)
+                exp_stats[D]["ping" if delay is None else "pong"] += 1
             continue
         if len(got) != 1:
             return dict(kind="not-exactly-once", uid=uid, receiver=rcv, sent_step=ks, delay=delay, expected_step=D, handled=got), stats
